@@ -463,6 +463,60 @@ def campaign(chk, wname, frag, timeout, orders, kinds, stride=1, b_serve_all=Fal
     return traces, len(positions)
 
 
+def real_pipe_runs(chk):
+    """real OS pipes (PipeStream): the peer's ends are closed without a CLOSE message while the side is idle in serve_all();
+    an empty pipe whose writer is gone reports hang-up only - the side must still notice, close and run its hook once"""
+    import threading
+    import time
+    import rpyc
+    from rpyc.core.stream import PipeStream
+    for variant in ("idle", "after-traffic"):
+        hooks = []
+
+        class Svc(rpyc.Service):
+            def on_disconnect(self, conn):
+                hooks.append(1)
+
+            def exposed_echo(self, x):
+                return x
+        s1, s2 = PipeStream.create_pair()
+        c1 = rpyc.connect_stream(s1, Svc)
+        t = threading.Thread(target=lambda: _quiet(c1.serve_all), daemon=True)
+        t.start()
+        c2 = rpyc.connect_stream(s2, rpyc.VoidService)
+        ok = True
+        if variant == "after-traffic":
+            ok = c2.root.echo(5) == 5
+        time.sleep(0.4)
+        s2.close()                      # the peer vanishes: no CLOSE message
+        t.join(4)
+        chk.evaluated()
+        chk.distinct(("real-pipe", variant))
+        bad = None
+        if not ok:
+            bad = ("pipe-call", "a call over real pipes returned a wrong value")
+        elif t.is_alive():
+            bad = ("pipe-hang", "serve_all() is still running 4 s after the peer's pipe ends were closed (side closed: %s, hook ran %d "
+                   "time(s))" % (c1.closed, len(hooks)))
+        elif not c1.closed:
+            bad = ("pipe-not-closed", "serve_all() returned but the connection is not closed")
+        elif len(hooks) != 1:
+            bad = ("pipe-hook", "the disconnect hook ran %d times" % len(hooks))
+        if bad:
+            chk.violation("realpipe:" + bad[0], "C11 [real OS pipes, peer vanishes %s] %s" % (variant, bad[1]), {"workload": "realpipe", "variant": variant})
+        else:
+            chk.validated()
+        for c in (c1, c2):
+            _quiet(c.close)
+
+
+def _quiet(f):
+    try:
+        f()
+    except Exception:
+        pass
+
+
 def main():
     chk = Check(PID)
     gc.disable()
@@ -514,6 +568,7 @@ def main():
         total_pos += npos
         gc.collect()
     chk.cov["fault_positions"] = total_pos
+    real_pipe_runs(chk)
     # a connection shared by threads (RpycServe's setting): the peer vanishes at an arbitrary moment
     from harness.drivers import serve_common as svc
 
